@@ -13,12 +13,12 @@ func init() {
 	register(&Prop{
 		ID:    "C15",
 		Level: "exploration",
-		Rule: "exhaustive small scope: all JSON trees with at most 6 nodes (quick: 5) over leaves {1, \"s\", null, [], {}} and keys a, b, x level bounds {0..4, last} as single levels and as 'a to b' ranges, bare and followed by .a / .* / [*] in strict mode, and .* / [*] / bare .** in lax mode; random trees up to 40 nodes. " +
+		Rule: "exhaustive small scope: all JSON trees with at most 6 nodes (quick: 5) over leaves {1, \"s\", null, [], {}} and keys a, b, x level bounds {0..4, last} as single levels and as 'a to b' ranges (ascending and descending), bare and followed by .a / .* / [*] in strict mode, and .* / [*] / bare .** in lax mode; random trees up to 40 nodes. " +
 			"Oracle: an explicit depth-counting tree walk written in the harness (object members form an unordered group). Non-trivial: the document is a container; distinct by (tree, path)",
-		Run:    runC15,
-		Replay: replayC15,
+		Run:          runC15,
+		Replay:       replayC15,
 		MinExercised: map[string]int64{"anykey": 500, "anyarray": 500, "anylevel": 20000, "anylevel.last": 2000, "equiv.unbounded": 500, "equiv.kfold": 2000, "strict.skip": 5000, "exists": 5000},
-		Assumptions: []string{"object member order is open: results are compared as sequences in which the members of one object may appear in any order (all orders enumerated for objects of <= 3 members)"},
+		Assumptions:  []string{"object member order is open: results are compared as sequences in which the members of one object may appear in any order (all orders enumerated for objects of <= 3 members)"},
 	})
 }
 
@@ -160,7 +160,8 @@ func anySpecs() []anySpec {
 	for a := 0; a <= 4; a++ {
 		specs = append(specs, anySpec{fmt.Sprintf(".**{%d}", a), a, a, false})
 		specs = append(specs, anySpec{fmt.Sprintf(".**{%d to last}", a), a, -1, false})
-		for b := a; b <= 4; b++ {
+		for b := 0; b <= 4; b++ {
+			// (b < a: an empty depth interval selects nothing)
 			specs = append(specs, anySpec{fmt.Sprintf(".**{%d to %d}", a, b), a, b, false})
 		}
 	}
